@@ -344,3 +344,26 @@ func Controller(thorough bool, expired func() bool, level func(name string, comp
 	})
 	done("L3 all ordered triples over the residue-complete subsets of actions, match fields, instructions, buckets")
 }
+
+// LateGrowthShapes are trees in which a conntrack action with nested actions is followed by another
+// action of the same list: they are additionally built with the conntrack action attached bare and
+// filled afterwards (builder history LateGrow).
+func LateGrowthShapes() []*wire.N {
+	ct := func(rot int, nested ...*wire.N) *wire.N {
+		c := Action("nx_ct", rot)
+		c.Add("Actions", nested...)
+		return c
+	}
+	m := Match(OxmByName("OXM_OF_IN_PORT", false, 1))
+	var out []*wire.N
+	for _, ik := range []string{"instr_apply_actions", "instr_write_actions"} {
+		out = append(out,
+			FlowMod(0, m.Clone(), Instr(ik, 1, ct(1, Nat(3, 1, 2)), Action("act_output", 2))),
+			FlowMod(0, m.Clone(), Instr(ik, 2, ct(2, Nat(0x13, 1, 3), Action("nx_ct_clear", 1)), Action("nx_note", 3)), Instr("instr_goto_table", 4)),
+			FlowMod(1, m.Clone(), Instr(ik, 3, Action("act_group", 1), ct(3, Nat(1, 1, 4)), ct(4, Nat(2, 1, 5)), Action("act_output", 5))),
+			BundleAdd(FlowMod(0, m.Clone(), Instr(ik, 1, ct(5, Nat(3, 1, 2)), Action("act_output", 2))), 1),
+		)
+	}
+	out = append(out, PacketOut(Payload(48), true, ct(6, Nat(3, 1, 2)), Action("act_output", 3)))
+	return out
+}
